@@ -377,3 +377,66 @@ def krige_fit_geo_scale(ctx, geo):
     mean_v = sum(vals) / 3
     ctx.ensure("vario_estimate(field=conditioning-values)", ctx.eq(a[1], _arr(ctx, vals)))
     ctx.ensure("fit_variogram(sill=data-variance)", ctx.eq(flog[0][2], sum((v - mean_v) * (v - mean_v) for v in vals) / 3))
+
+
+@contract(P, "binning.standard_bins[latlon]/equal-bins-up-to-a-third-of-the-great-circle-box-diameter",
+          params={"bin_no": [None, 4], "n": [2, 4]},
+          functions=["variogram/binning.py:standard_bins", "variogram/binning.py:_sturges"], timeout=40)
+def standard_bins_latlon(ctx, bin_no, n):
+    """docstring: bins from 0 to max_dist = one third of the box diameter of the points, for lat-lon the
+    points on the sphere of radius geo_scale and the diameter converted to a great-circle distance in the
+    unit of geo_scale; number of bins by Sturges' rule ceil(2 log2(n) + 1) unless given.
+    Modular: `latlon2pos` and `chordal_to_great_circle` are used through their contracts above (the
+    embedding returns SOME points, the conversion is a function of (chord, radius)); what is checked
+    here is that standard_bins hands them the right arguments and composes them as documented."""
+    import gstools.variogram.binning as B
+    m = ctx.m
+    R = ctx.real("R", lo=0.5, hi=7000.0)
+    ctx.require(ctx.gt(R, 0))
+    lat = [ctx.real("lat%d" % i, lo=-90, hi=90) for i in range(n)]
+    lon = [ctx.real("lon%d" % i, lo=-180, hi=360) for i in range(n)]
+    emb = [[ctx.real("e%d_%d" % (a, i), lo=-1, hi=1) for i in range(n)] for a in range(3)]
+    calls = {"l2p": [], "c2g": []}
+
+    def ghost_latlon2pos(pos, radius=1.0, **kw):
+        calls["l2p"].append((pos, radius, kw))
+        return _arr(ctx, emb)
+
+    def ghost_c2gc(dist, radius=1.0):
+        calls["c2g"].append((dist, radius))
+        return m.fn("c13_c2gc", dist, radius)
+
+    real = B.latlon2pos, B.chordal_to_great_circle
+    B.latlon2pos, B.chordal_to_great_circle = ghost_latlon2pos, ghost_c2gc
+    try:
+        with warnings.catch_warnings():
+            warnings.simplefilter("ignore")
+            bins = B.standard_bins([lat, lon], latlon=True, bin_no=bin_no, geo_scale=R)
+    finally:
+        B.latlon2pos, B.chordal_to_great_circle = real
+    want_no = {2: 3, 4: 5}[n]           # ceil(2 log2(2) + 1) = 3, ceil(2 log2(4) + 1) = 5
+    nb = want_no if bin_no is None else bin_no
+    ctx.ensure("bin-count(Sturges-or-given)", ctx.shape_eq(bins, (nb + 1,)))
+    ctx.ensure("embedding-called-with(lat,lon;radius=geo_scale)",
+               ctx.And(len(calls["l2p"]) == 1 and not calls["l2p"][0][2], ctx.shape_eq(calls["l2p"][0][0], (2, n)),
+                       ctx.eq(calls["l2p"][0][0], _arr(ctx, [lat, lon])), ctx.eq(calls["l2p"][0][1], R))
+               if calls["l2p"] else False)
+    if np.shape(bins) != (nb + 1,) or len(calls["c2g"]) != 1:
+        ctx.ensure("diameter-converted-once", False)
+        return
+    diag2 = 0
+    for ax_ in emb:
+        lo_, hi_ = ax_[0], ax_[0]
+        for v in ax_[1:]:
+            lo_, hi_ = m.min(lo_, v), m.max(hi_, v)
+        diag2 = diag2 + (hi_ - lo_) * (hi_ - lo_)
+    ctx.ensure("conversion-called-with(box-diameter,geo_scale)",
+               ctx.And(ctx.eq(calls["c2g"][0][0] * calls["c2g"][0][0], diag2), ctx.ge(calls["c2g"][0][0], 0),
+                       ctx.eq(calls["c2g"][0][1], R)))
+    gc_ = m.fn("c13_c2gc", calls["c2g"][0][0], R)
+    ctx.ensure("first-edge=0", ctx.eq(bins[0], 0))
+    ctx.ensure("last-edge=great-circle(box-diameter)/3", ctx.eq(bins[nb], gc_ / 3))
+    ctx.ensure("equally-spaced", ctx.And(*[ctx.eq(bins[i], bins[nb] * i / nb) for i in range(nb + 1)]))
+
+
+symrun.CONC_FUNCS["c13_c2gc"] = lambda d, r: float(2 * r * np.arcsin(min(max(d / (2 * r), 0.0), 1.0)))
